@@ -205,7 +205,7 @@ def run_slice(name, tier, stats):
             a = vlib.run_tlc("Trace_Confluence", "Trace_Confluence.cfg", workers=8, timeout=1200,
                              env={"VERIF_TRACE": cpath}, tags=("BAD",), metatag="tc-" + name)
             vlib.tlc_must_succeed(a, "Trace_Confluence " + name)
-            if a.distinct != len(good):
+            if a.distinct != len(good) + 1:
                 raise ToolError("confluence pass judged %d of %d records" % (a.distinct, len(good)))
             for i in a.payloads("BAD"):
                 g, prev = good[i - 1], good[i - 2]
@@ -247,7 +247,7 @@ def types_in(steps):
     return sorted({s["ty"] for s in steps if s["op"] == "call"})
 
 
-def run_property(prop, slices, tier, level="model_checking", extra_assumptions=()):
+def run_property(prop, slices, tier, level="model_checking", extra_assumptions=(), extra_stage=None):
     t0 = time.time()
     v = vlib.Verdicts(prop)
     stats = {}
@@ -274,7 +274,9 @@ def run_property(prop, slices, tier, level="model_checking", extra_assumptions=(
                               "model_verdict": r["model_bad"]})
             if r["model_bad"] and not r["bad"]:
                 pass  # model pessimism is reported in aggregate below
-    for mv in stats.get("model_violations", []):
+    if extra_stage:
+        extra_stage(tier, v, stats, vlib.seed())
+    for mv in [m for m in stats.get("model_violations", []) if "slice" in m]:
         v.note("model verdict: invariant %s is violated on the model in slice %s (TLC counterexample); see replayed cases for the real code" % (mv["invariant"], mv["slice"]))
     for p, n in sorted(others.items()):
         v.note("%d verdict(s) of property %s seen in these slices are reported by that property's own check" % (n, p))
@@ -282,10 +284,11 @@ def run_property(prop, slices, tier, level="model_checking", extra_assumptions=(
         v.note("instantiations of one generic type render different text: %s" % stats["ident_clash"])
     rc = v.finish()
     cov = {"states": stats.get("states", 0), "transitions": stats.get("transitions", 0),
-           "traces_validated_against_impl": stats.get("adjudicated", 0),
+           "traces_validated_against_impl": stats.get("adjudicated", 0) + stats.get("thread_runs", 0),
            "samples": samples, "histories_replayed": total,
            "distinct_exported_sets_compared": stats.get("distinct_done_sets", 0),
            "slices": stats.get("slices", {}),
+           "threads": {k: stats[k] for k in stats if k.startswith("thread_") or k == "action_coverage"},
            "exhaustive": True,
            "rule": "per slice: every sequence of steps over the slice's alphabet up to its length bound is one TLC behaviour (MC_ExportHist.tla); each is replayed through the real entry points in a fresh directory with a reset registry; TLC (Trace_Export.tla) steps the abstract specification along the observed history and evaluates the property on the real trees; Trace_Confluence.tla compares final bytes of histories that reached the same exported set"}
     vlib.write_evidence(prop, tier, level, cov,
